@@ -1013,3 +1013,8 @@ mod tests {
         header5.verify(&header6).unwrap_err();
     }
 }
+
+#[cfg(all(test, lumina_verif))]
+mod verif_native {
+    include!(concat!(env!("LUMINA_VERIF_DIR"), "/native/types/header_findings.rs"));
+}
